@@ -1,7 +1,97 @@
-(** C20 — the generated container is safe under concurrent use (partial: the locking protocol of the runtime library is modelled by
-    Runtime/Conc.v; real schedules are sampled by the probe under the race detector). *)
-From GV Require Import Base.Str Runtime.Conc.
+(** C20 — the generated container is safe under concurrent use.
+    (partial: the locking protocol of the external runtime library is modelled by Runtime/Conc.v - per-service mutex,
+    check-construct-store, one cache per context - and is not verified against its source; real schedules are sampled by the probe
+    under the race detector.)  Statements only; proofs in Proofs/ConcProofs.v.
+    [reach C (init ctx_of) st]: st is reachable from the empty container by ANY interleaving of steps of any threads, each thread
+    [t] working in its context [ctx_of t].  Dependencies may be arbitrary (even cyclic: a cycle deadlocks, it never double-builds). *)
+From Coq Require Import List Arith.
+From GV Require Import Base.Str Runtime.Conc Proofs.ConcProofs.
+Import ListNotations.
 
-Theorem C20_initially_nothing_built : forall ctx_of i c, built (init ctx_of) i = 0 /\ built_ctx (init ctx_of) c i = 0 /\ shared_cache (init ctx_of) i = false.
-Proof. intros. cbn. auto. Qed.
-Print Assumptions C20_initially_nothing_built.
+(** a shared service is constructed at most once per container, in every reachable state of every schedule; once it is cached it
+    has been constructed exactly once *)
+Theorem C20_shared_at_most_once : forall (C : cfg) (ctx_of : tid -> cid) (st : state) (i : sid),
+  reach C (init ctx_of) st -> kind C i = KShared ->
+  built st i <= 1 /\ (shared_cache st i = true -> built st i = 1).
+Proof. exact shared_built_at_most_once. Qed.
+Print Assumptions C20_shared_at_most_once.
+
+(** a contextual service is constructed at most once per context *)
+Theorem C20_contextual_at_most_once_per_context : forall (C : cfg) (ctx_of : tid -> cid) (st : state) (i : sid) (c : cid),
+  reach C (init ctx_of) st -> kind C i = KContextual ->
+  built_ctx st c i <= 1 /\ (ctx_cache st c i = true -> built_ctx st c i = 1).
+Proof. exact contextual_built_at_most_once. Qed.
+Print Assumptions C20_contextual_at_most_once_per_context.
+
+(** contexts are isolated: a step of a thread working in one context changes neither the cache nor the construction counters of
+    any other context; neither does a whole run of threads outside that context *)
+Theorem C20_context_isolation_step : forall (C : cfg) (st : state) (t : tid) (st' : state) (c' : cid) (i : sid),
+  step C st t st' -> c' <> t_ctx (threads st t) ->
+  ctx_cache st' c' i = ctx_cache st c' i /\ built_ctx st' c' i = built_ctx st c' i.
+Proof. exact ctx_isolation. Qed.
+Print Assumptions C20_context_isolation_step.
+
+Theorem C20_context_isolation_run : forall (C : cfg) (c' : cid) (st st' : state),
+  reach_by C (fun t : tid => t_ctx (threads st t) <> c') st st' ->
+  forall i : sid, ctx_cache st' c' i = ctx_cache st c' i /\ built_ctx st' c' i = built_ctx st c' i.
+Proof. exact ctx_isolation_run. Qed.
+Print Assumptions C20_context_isolation_run.
+
+(** a contextual instance is stored in the bag of the context of the thread that built it, and nowhere else; the context of a
+    thread never changes *)
+Theorem C20_store_goes_to_own_context : forall (C : cfg) (st : state) (t : tid) (st' : state) (i : sid) (rest : list frame),
+  step C st t st' -> kind C i = KContextual ->
+  t_stack (threads st t) = {| f_id := i; f_pc := PStore |} :: rest ->
+  ctx_cache st' (t_ctx (threads st t)) i = true /\
+  (forall (c' : cid) (j : sid), c' <> t_ctx (threads st t) \/ j <> i -> ctx_cache st' c' j = ctx_cache st c' j).
+Proof. exact store_goes_to_own_bag. Qed.
+Print Assumptions C20_store_goes_to_own_context.
+
+Theorem C20_thread_context_fixed : forall (C : cfg) (ctx_of : tid -> cid) (st : state),
+  reach C (init ctx_of) st -> forall t : tid, t_ctx (threads st t) = ctx_of t.
+Proof. exact reach_ctx. Qed.
+Print Assumptions C20_thread_context_fixed.
+
+(** lock discipline: the mutex of a service is held exactly by the one frame that is past its acquire point - at most one such
+    frame exists in the whole system (no two threads, and no two frames of one thread, are inside the critical section) *)
+Theorem C20_lock_discipline : forall (C : cfg) (ctx_of : tid -> cid) (st : state) (i : sid),
+  reach C (init ctx_of) st -> needs_lock C i = true ->
+  (forall t : tid, locks st i = Some t <-> (exists fr : frame, In fr (t_stack (threads st t)) /\ f_id fr = i /\ f_pc fr <> PAcquire)) /\
+  (forall (t1 t2 : tid) (n1 n2 : nat) (fr1 fr2 : frame),
+     nth_error (t_stack (threads st t1)) n1 = Some fr1 -> f_id fr1 = i -> f_pc fr1 <> PAcquire ->
+     nth_error (t_stack (threads st t2)) n2 = Some fr2 -> f_id fr2 = i -> f_pc fr2 <> PAcquire -> t1 = t2 /\ n1 = n2) /\
+  (locks st i = None -> forall (t : tid) (fr : frame), In fr (t_stack (threads st t)) -> f_id fr = i -> f_pc fr = PAcquire).
+Proof. exact lock_discipline. Qed.
+Print Assumptions C20_lock_discipline.
+
+(** non-shared services are never cached and never take a lock: every Get builds a fresh instance *)
+Theorem C20_non_shared_fresh : forall (C : cfg) (ctx_of : tid -> cid) (st : state) (i : sid),
+  reach C (init ctx_of) st -> kind C i = KNonShared ->
+  (forall c, cached C st c i = false) /\ locks st i = None.
+Proof.
+  intros C ctx_of st i Hr Hk. split.
+  - intro c. apply nonshared_never_cached. exact Hk.
+  - exact (proj1 (nonshared_no_lock C ctx_of st i Hr Hk)).
+Qed.
+Print Assumptions C20_non_shared_fresh.
+
+(** caches only grow, counters never decrease *)
+Theorem C20_monotone : forall (C : cfg) (st st' : state), reach C st st' -> forall i : sid,
+  (shared_cache st i = true -> shared_cache st' i = true) /\
+  (forall c : cid, ctx_cache st c i = true -> ctx_cache st' c i = true) /\
+  built st i <= built st' i /\ (forall c : cid, built_ctx st c i <= built_ctx st' c i).
+Proof. exact reach_monotone. Qed.
+Print Assumptions C20_monotone.
+
+(** non-vacuity: a concrete interleaving (two threads in two contexts; service 0 shared depending on the contextual service 1) in
+    which the second thread hits the cache of the shared service and builds its own contextual instance *)
+Example C20_ex_trace : exists st1 st2 st3 : state,
+  reach exC (init ex_ctx) st1 /\
+  (built st1 0 = 1 /\ shared_cache st1 0 = true /\ built_ctx st1 0 1 = 1 /\ ctx_cache st1 0 1 = true /\ t_stack (threads st1 0) = [] /\ locks st1 0 = None) /\
+  reach exC st1 st2 /\
+  (t_stack (threads st2 1) = [{| f_id := 0; f_pc := PCheck |}] /\ locks st2 0 = Some 1 /\ cached exC st2 (t_ctx (threads st2 1)) 0 = true) /\
+  step exC st2 1 (set_stack st2 1 [{| f_id := 0; f_pc := PRelease |}]) /\
+  reach exC (set_stack st2 1 [{| f_id := 0; f_pc := PRelease |}]) st3 /\
+  built st3 0 = 1 /\ built_ctx st3 0 1 = 1 /\ built_ctx st3 1 1 = 1 /\ ctx_cache st3 1 1 = true /\ built_ctx st3 2 1 = 0 /\
+  t_stack (threads st3 0) = [] /\ t_stack (threads st3 1) = [] /\ locks st3 0 = None /\ locks st3 1 = None.
+Proof. exact example_trace. Qed.
